@@ -452,6 +452,21 @@ def check_unit(vc_path, tier='quick', sentinel=True, build_dir=None, pid=None):
     if r.failed:
         if r.status != 'undecided' or not r.tool_errors:
             r.status = 'violation'
+    # a lost hint that CARRIES a labelled clause (`assert(..); // [label]`): the clause could not be attached to the code,
+    # so it has not been checked on this tree.  When nothing else fails this is not a pass: undecided (exit 2).
+    if r.status == 'ok' and r.lost_inserts:
+        by_path = {o['path']: o for o in u.items}
+        for ipath, lost in r.lost_inserts.items():
+            inserts = by_path.get(ipath, {}).get('inserts', [])
+            labs = []
+            for k in lost:
+                if k < len(inserts):
+                    labs += re.findall(r'//\s*\[([\w]+)\]', inserts[k].get('text', ''))
+            if labs:
+                r.status = 'undecided'
+                r.reasons.append('lost anchor in %s: the clause(s) %s could not be attached (the statement they are stated at is gone)' % (ipath, ', '.join(labs[:4])))
+    if r.failed:
+        pass
     elif not res.get('success') and r.status == 'ok':
         r.status = 'undecided'
         r.reasons.append('verus reported failure without a classified error')
